@@ -14,4 +14,5 @@ macro_rules! props {
 
 props! {
     "c13" c13,
+    "c16" c16,
 }
